@@ -357,7 +357,11 @@ class ShiftbyZero(RewritePattern, Generic[IWidth]):
         rewriter: PatternRewriter,
     ) -> None:
         # check if the shift amount is zero
-        if isa(op, self.shift_op_type) and (op.immediate.value.data == 0):
+        if (
+            isa(op, self.shift_op_type)
+            and op.ZERO_IMMEDIATE_IS_IDENTITY
+            and op.immediate.value.data == 0
+        ):
             rewriter.replace(op, riscv.MVOp(op.rs1, rd=op.rd.type))
 
 
